@@ -1,28 +1,45 @@
-import Sftp.Props.C17Ls
+import Sftp.Model.LsMode
 /-
-  C17, known difference between the long name and the attributes of one listing entry.
+  C17, REPAIRED defect (fix commit 286d03f in /repo): long name and attributes of one listing entry
+  named different owners.
 
-  `runLs` takes the owner from `Sys()` when that is one of the package's own attribute types
-  (`*FileStat`, `*sshfx.Attributes`) BEFORE it looks for `FileInfoUidGid`; `fileStatFromInfo` lets
-  `FileInfoUidGid` override everything and never reads those two types.  A request-server handler that
-  proxies another SFTP server (its `os.FileInfo` values come from `Client.ReadDir`, so `Sys()` is a
-  `*FileStat`) and maps owners through `Uid()`/`Gid()` therefore sends, in one SSH_FXP_NAME entry,
-  the mapped owner in the attributes and the upstream owner in the long name.
+  Before the fix `runLs` took the owner from `Sys()` when that was one of the package's own attribute
+  types (`*FileStat`, `*sshfx.Attributes`) BEFORE it looked for `FileInfoUidGid`, while
+  `fileStatFromInfo` lets `FileInfoUidGid` override everything and never reads those two types.  A
+  request-server handler that proxies another SFTP server (its `os.FileInfo` values come from
+  `Client.ReadDir`, so `Sys()` is a `*FileStat`) and maps owners through `Uid()`/`Gid()` therefore
+  sent, in one SSH_FXP_NAME entry, the mapped owner in the attributes and the upstream owner in the
+  long name.  The witness is stated on the hand-written PRE-FIX source order (closed terms): it
+  documents the defect and does not depend on the current tree; on the current tree
+  `Sftp.C17.longname_owner_agrees` holds for every shape.
 -/
 namespace Sftp.C17.Known
 open Sftp
 
+/-- `fileStatFromInfo` (unchanged by the fix): Stat_t first, the interface overrides -/
+def attrsSteps : List OwnerSrc := [.sysType "*syscall.Stat_t" true, .iface "FileInfoUidGid" true]
+
+/-- `runLs` before 286d03f: the Sys() type switch first, the interface only in its default clause -/
+def preFixLsOrder : List OwnerSrc :=
+  [.sysType "*sshfx.Attributes" true, .sysType "*FileStat" true, .iface "FileInfoUidGid" true,
+   .sysType "*syscall.Stat_t" true]
+
+/-- `runLs` since 286d03f -/
+def fixedLsOrder : List OwnerSrc :=
+  [.iface "FileInfoUidGid" true, .sysType "*sshfx.Attributes" true, .sysType "*FileStat" true,
+   .sysType "*syscall.Stat_t" true]
+
 def proxied : InfoShape := ⟨"*FileStat", (1001, 1002), ["FileInfoUidGid"], (4242, 4343)⟩
 
-/-- attributes: the mapped owner; long name: the owner found in `Sys()` -/
-theorem longname_owner_disagrees_witness :
-    proxied.sysTy ∈ lsSysFirst G.lsOwnerOrder ∧
-      attrsOwner G.attrsOwnerSteps proxied = some (4242, 4343) ∧
-      lsOwner G.lsOwnerOrder proxied = (1001, 1002) := by decide
+/-- pre-fix: attributes carry the mapped owner, the long name the owner found in `Sys()` -/
+theorem longname_owner_disagreed_witness :
+    lsSysFirst preFixLsOrder = ["*sshfx.Attributes", "*FileStat"] ∧
+      attrsOwner attrsSteps proxied = some (4242, 4343) ∧
+      lsOwner preFixLsOrder proxied = (1001, 1002) := by decide
 
-/-- Without the interface the attributes of such an entry carry no owner at all while the long name
-shows the one in `Sys()` (no contradiction, but the structured owner is lost). -/
-example : attrsOwner G.attrsOwnerSteps ⟨"*FileStat", (1001, 1002), [], (0, 0)⟩ = none ∧
-    lsOwner G.lsOwnerOrder ⟨"*FileStat", (1001, 1002), [], (0, 0)⟩ = (1001, 1002) := by decide
+/-- the same entry with the repaired order -/
+theorem longname_owner_repaired_witness :
+    attrsOwner attrsSteps proxied = some (4242, 4343) ∧ lsOwner fixedLsOrder proxied = (4242, 4343) := by
+  decide
 
 end Sftp.C17.Known
